@@ -441,6 +441,7 @@ pub fn run_history(flavor: Flavor, h: &HCfg) -> Hist {
             Err(_) => {}
         }
     }
+    phase("stop-helpers");
     stop.store(true, Ordering::SeqCst);
     if let Some(t) = tk {
         let _ = t.join();
